@@ -18,6 +18,7 @@ func extraAgents(s *Sim) []Agent {
 	add("levlp", &LevLPAgent{newBase(s, "levlp")})
 	add("perp", &PerpAgent{newBase(s, "perp")})
 	add("liquidator", &LiquidatorAgent{baseAgent: newBase(s, "liquidator")})
+	add("commit", &CommitAgent{newBase(s, "commit")})
 	return out
 }
 
@@ -28,6 +29,8 @@ func extraMonitors(s *Sim) []Monitor {
 		newMonC09(s),
 		newMonC11(s),
 		newMonC12(s),
+		newMonC14(s),
+		&MonC15{},
 	}
 }
 
